@@ -34,7 +34,11 @@ def run(t):
     run.add_tlc(r, "Malformed mc (4 field kinds x 9 classes x 0..6 units remaining; liveness Terminates)")
     for v, inv in NEG:
         tlc_must_fail(run_tlc("Malformed_MC", f"Malformed_Neg_{v}.cfg", timeout=300, want_beh=False, workers=2), v, expect=inv)
-    run.cov["negative_controls"] = [v for v, _ in NEG]
+    rp = run_tlc("PipeDrain_MC", "PipeDrain_MC.cfg", timeout=300, want_beh=False)
+    tlc_must_pass(rp, "PipeDrain_MC")
+    run.add_tlc(rp, "PipeDrain mc (producer / helper goroutine over an unbuffered pipe, failure at any chunk; liveness CallerReturns)")
+    tlc_must_fail(run_tlc("PipeDrain_MC", "PipeDrain_Neg_NoDrainOnError.cfg", timeout=300, want_beh=False), "NoDrainOnError", expect="NeverStuck")
+    run.cov["negative_controls"] = [v for v, _ in NEG] + ["NoDrainOnError"]
     if len(r.beh) != 1:
         raise NoVerdict(f"case table not exported ({len(r.beh)})")
     table = r.beh[0]
@@ -47,7 +51,8 @@ def run(t):
     run.cov["rule"] = (f"{c.get('cases')} isolated child runs (every case of the table): {c.get('fields_located')} structural fields "
                        f"located in {o['extra'].get('bases')} base artifacts (signed and unsigned fixtures of 15 package types; upload tarballs of apk/appx/msi/macho/dmg) x "
                        "classes {0, 1, v-1, v+1, file size, file size+1000, 2^(n-1)-1, 2^n-1, 2^(n-1)} x entry points {verify, is-signed probe, client transform, "
-                       "server /sign with the real handler}, plus truncation at 4 points; child under ulimit -v 8 GiB, 30 s wall clock; "
+                       "server /sign with the real handler}, plus truncation at 4 points and garbling of nested compressed streams (deb control/data members, xar table "
+                       "of contents: early, middle, unknown compression suffix) and a harness-written ZIP64 archive; child under ulimit -v 2.5 GiB (a 2 GiB allocation fails deterministically), 30 s wall clock; "
                        "the server's access log distinguishes a recovered panic from an ordinary 500")
     run.cov["exhaustive"] = False
     run.assumptions += ["structured boundary corruption of known fields only: nothing is claimed about arbitrary byte strings (no coverage-guided mutation in this family)",
